@@ -74,9 +74,10 @@ pub fn run(ctx: Ctx) -> ! {
         ctx.note(format!("decoder panics (outside C33, see C09): {:?}", decode_panics.summary()));
     }
     found.flush(&ctx);
-    let mut cov = sum.coverage(
-        "TxLab space: per base every single deviation and every pair of deviations of different dimensions (witness lists of length <= 3 alone, <= 1 quick / <= 3 thorough inside pairs); a case is non-trivial when pallas-traverse decodes it so that validate_tx runs; distinct by Blake2b of (tx bytes, UTxO bytes, environment numbers)",
-    );
+    let mut cov = sum.coverage(&format!(
+        "TxLab space: per base (Byron B1, B1r; post-Byron B1/B2/B3 per era) every single deviation and every pair of deviations of different dimensions ({}); a case is non-trivial when pallas-traverse decodes it so that validate_tx runs; distinct by Blake2b of (tx bytes, UTxO bytes, environment numbers)",
+        bounds.describe()
+    ));
     cov.insert("panic_sites".into(), json!(found.summary()));
     cov.insert("suspected_sites".into(), json!(suspects));
     ctx.finish(
